@@ -16,7 +16,9 @@ RULE = (
     "Cases: a model of each family (daily legacy/current profiles, billing, hourly solar and non-solar profiles, CalTRACK hourly) "
     "fitted on a full-year baseline (every month and weekday present, by construction) x a reporting set (1 day .. 1 year, "
     "hourly spans may contain 23/25-hour days) x an alteration of its observed column from {scaled by k, permuted, random cells "
-    "NaN, a whole month NaN, all NaN, column absent, all zero, scattered zeros, sign flipped, +-inf cells; daily family also as hourly meter "
+    "NaN, a whole month NaN, all NaN, column absent, all zero, scattered zeros, sign flipped, +-inf cells, moved by three days, the first or the last days missing; "
+    "hourly baselines may miss the same hour of the same weekday in every week; CalTRACK hourly also through from_series (meter series with NaN or without those rows; "
+    "six fixed cases per run); daily family also as hourly meter "
     "readings + hourly weather through from_series with part of a day or a three-day outage blanked}, with up to three gaps in the "
     "reporting period's temperature / irradiance (identical in both runs, so filling them must not look at usage); in two cases of five the model "
     "has already produced an interim report over a shorter span and both runs start from copies of that used model. Oracle (metamorphic): the altered run "
@@ -29,7 +31,8 @@ ASSUMPTIONS = [
     "electric zero usage is 'missing' by the data classes' convention",
     "a data class rejecting the altered frame (e.g. a 3-day span with a hole read as billing data) is counted, not judged here: acceptance is C10's subject",
 ]
-ALTS = ["scale", "permute", "nan_cells", "nan_month", "all_nan", "absent", "zero", "zero_cells", "negate", "inf_cells", "constant"]
+ALTS = ["scale", "permute", "nan_cells", "nan_month", "all_nan", "absent", "zero", "zero_cells", "negate", "inf_cells", "constant", "shift_days",
+        "nan_head", "nan_tail"]
 SUB_ALTS = ["nan_day_partial", "outage3", "nan_day_partial", "outage3", "all_nan", "absent", "scale", "nan_cells", "zero_cells"]
 
 
@@ -52,6 +55,8 @@ def hourly_from_daily(df, c):
 @st.composite
 def cases(draw, family=None):
     b = draw(zoo.baseline(family=family, full_year=True, cheap=True))
+    if b["family"] == "hourly" and draw(st.integers(0, 2)) == 0:
+        b["weekly_gap"] = draw(st.sampled_from([[6, 3], [2, 14], [5, 0]]))
     r = draw(zoo.reporting(b))
     r["observed"] = True
     return {"kind": "alt", "baseline": b, "rep": r, "alt": draw(st.sampled_from(ALTS)), "k": draw(st.sampled_from([0.0, 0.5, 3.0, 1e6, -2.0])),
@@ -61,7 +66,10 @@ def cases(draw, family=None):
             # gaps in the reporting period's weather (same in both runs): (column, position as a fraction, length in rows)
             "wx_gaps": draw(st.lists(st.tuples(st.sampled_from(["temperature", "ghi"]), st.floats(0, 0.95), st.integers(1, 40)), max_size=3)),
             # daily family only: the reporting period arrives as hourly meter readings + hourly weather through from_series
-            "subdaily": draw(st.sampled_from([False, False, True])), "sub_alt": draw(st.sampled_from(SUB_ALTS)), "feed_h0": draw(st.sampled_from([0, 0, 19, 7]))}
+            "subdaily": draw(st.sampled_from([False, False, True])), "sub_alt": draw(st.sampled_from(SUB_ALTS)), "feed_h0": draw(st.sampled_from([0, 0, 19, 7])),
+            # CalTRACK hourly only: the reporting period arrives as two series through from_series; the meter series then either
+            # carries NaN where readings are missing or simply does not have those rows
+            "series_entry": draw(st.booleans()), "meter_rows_absent": draw(st.booleans())}
 
 
 def alter(df, c):
@@ -91,6 +99,17 @@ def alter(df, c):
         o[rng.random(n) < 0.1] = np.inf
     elif a == "constant":
         o[:] = 7.0
+    elif a == "shift_days":
+        # the same readings three days later (another weekday pattern, same level)
+        per = 24 if (n > 48 and (out.index[1] - out.index[0]) <= pd.Timedelta(hours=1)) else 1
+        o = np.roll(o, 3 * per)
+    elif a in ("nan_head", "nan_tail"):
+        # the meter record starts later / stops earlier than the weather record
+        k = max(1, min(n // 4, 24 * 4 if n > 48 else 3))
+        if a == "nan_head":
+            o[:k] = np.nan
+        else:
+            o[-k:] = np.nan
     elif a == "nan_day_partial":
         # 16 of the 24 readings of one interior day are lost (coverage 1/3: that day's usage is missing, nothing else changes)
         day = out.index.normalize().unique()[max(1, len(out.index.normalize().unique()) // 2)]
@@ -131,7 +150,17 @@ def judge(c, rec):
         c = dict(c, alt=c["sub_alt"])
     df2 = alter(df, c)
     cls = ["family=" + fam, "profile=" + b["profile"], "alt=" + c["alt"], "n=%d" % c["rep"]["n"], "used-model=%d" % bool(c.get("interim")), "weather-gaps=%d" % min(gaps, 1)]
+    series_entry = bool(c.get("series_entry")) and fam == "caltrack"
+
     def mk(frame):
+        if series_entry:
+            from opendsm import eemeter as em
+
+            meter = frame["observed"] if "observed" in frame else None
+            if meter is not None and c.get("meter_rows_absent") and meter.notna().any():
+                meter = meter[meter.notna()]
+            with contextlib.redirect_stdout(io.StringIO()):
+                return em.HourlyCaltrackReportingData.from_series(meter, frame["temperature"], is_electricity_data=b.get("electric", True))
         if not sub:
             return zoo.build_reporting(b, c["rep"], frame=frame)
         from opendsm import eemeter as em
@@ -140,7 +169,8 @@ def judge(c, rec):
             return em.DailyReportingData.from_series(frame["observed"] if "observed" in frame else None, frame["temperature"],
                                                      is_electricity_data=b.get("electric", True))
 
-    cls = cls + ["entry=" + ("hourly-from_series" if sub else "frame")]
+    cls = cls + ["entry=" + ("hourly-from_series" if sub else "caltrack-from_series" if series_entry else "frame"),
+                 "baseline-weekly-gap=%d" % bool(b.get("weekly_gap"))]
     rep1 = mk(df)
     try:
         p1 = zoo.predict(m, b, rep1)
@@ -208,10 +238,29 @@ def shards(tier, seed):
         out.append({"family": "hourly", "n": 8 if q else 80, "seed": mix(seed, ID, "hourly", i)})
     for i in range(2):
         out.append({"family": "caltrack", "n": 2 if q else 10, "seed": mix(seed, ID, "caltrack", i)})
+    out.append({"family": "caltrack", "fixed": True, "seed": int(seed)})
+    return out
+
+
+def fixed_caltrack_cases(seed):
+    b = {"family": "caltrack", "profile": "caltrack", "tz": "America/Chicago", "start_day": 0, "n": 365, "noise_seed": 11 + seed % 50, "noise": 0.05,
+         "usage": {"base": 20.0, "hs": 1.2, "hb": 50.0, "cs": 0.8, "cb": 68.0}, "weekend_shift": 0.2, "season_shift": 0.0, "south": False,
+         "electric": True, "ghi": False}
+    r = {"start_day": 400 + seed % 200, "n": 30, "noise_seed": 5, "observed": True, "T_shift": 0.0, "T_scale": 1.0}
+    out = []
+    for alt, absent in (("nan_head", False), ("nan_tail", True), ("nan_tail", False), ("nan_head", True), ("all_nan", False), ("scale", False)):
+        out.append({"kind": "alt", "baseline": b, "rep": r, "alt": alt, "k": 3.0, "alt_seed": 1, "interim": None, "wx_gaps": [], "subdaily": False,
+                    "sub_alt": "scale", "feed_h0": 0, "series_entry": True, "meter_rows_absent": absent})
     return out
 
 
 def run_shard(spec, rec):
+    if spec.get("fixed"):
+        from ..hyp import run_judge
+
+        for c in fixed_caltrack_cases(spec["seed"]):
+            run_judge(judge, c, rec)
+        return
     explore(cases(family=spec["family"]), judge, rec, max_examples=spec["n"], seed=spec["seed"], shrink=False)
 
 
